@@ -103,6 +103,32 @@ impl AIDGenerator {
     }
 }
 
+/// Verification hook: a generator positioned at an arbitrary allocation marker, so that the last
+/// blocks before the 2^40 wrap can be reached (no behaviour).
+#[cfg(feature = "verif")]
+impl AIDGenerator {
+    pub fn verif_at(next_alloc: u64) -> AIDGenerator {
+        AIDGenerator {
+            next_alloc,
+            curr_index: ACTION_ID_PREALLOC_LEN,
+            action_ids: [0u64; ACTION_ID_PREALLOC_LEN],
+        }
+    }
+}
+
+/// Verification hook: a message id generator positioned at an arbitrary allocation marker.
+#[cfg(feature = "verif")]
+impl MIDGenerator {
+    pub fn verif_at(&self, next_alloc: u64) -> MIDGenerator {
+        MIDGenerator {
+            action_id: self.action_id,
+            next_alloc,
+            curr_index: MESSAGE_ID_PREALLOC_LEN,
+            message_ids: [0u64; MESSAGE_ID_PREALLOC_LEN],
+        }
+    }
+}
+
 // (next_alloc, aids)
 fn generate_aids(next_alloc: u64) -> (u64, [u64; ACTION_ID_PREALLOC_LEN]) {
     // Check if we need to wrap
